@@ -109,6 +109,10 @@ def gen_cases(tier):
     for n in range(1, len(expressible) + 1):
         for seq in itertools.permutations(expressible, n):
             yield {"csv": list(seq)}
+    # the same files through the command line, migrated on request (files of 2..3 rows; thorough: up to all 5)
+    for n in range(2, (3 if tier == "quick" else len(expressible)) + 1):
+        for seq in itertools.permutations(expressible, n):
+            yield {"cli": list(seq)}
 
 
 @functools.lru_cache(maxsize=None)
@@ -177,7 +181,58 @@ def check_csv(case):
     return {"evals": evals, "nontrivial": 1 if nontrivial else 0, "outcomes": ["csv"], "violations": viol[:10], "sample_repr": {"file": text}}
 
 
+def check_cli(case):
+    """The same legacy CSV rule file in a budget with `rule_mode: most_specific`, classified by the run that migrates it on request
+    (`tally up --migrate`): every statement row must get the category of the top-ranked matching row."""
+    import json
+    import os
+    import shutil
+    from mc.core import proc
+    seq = tuple(case["cli"])
+    rows = [{"pattern": CSV_FORM[i], "merchant": RULES[i]["name"], "category": RULES[i]["category"], "subcategory": RULES[i].get("subcategory", ""), "tags": ""}
+            for i in seq]
+    base = os.path.join(R.scratch(), "c09budget")
+    shutil.rmtree(base, ignore_errors=True)
+    os.makedirs(os.path.join(base, "config"))
+    os.makedirs(os.path.join(base, "data"))
+    stmt = [("UBER EATS", 100.25), ("UBER EATS", -50.0), ("UBER TRIP 77", 100.25), ("NETFLIX.COM 123", 100.25)]
+    with open(os.path.join(base, "data", "s.csv"), "w") as f:
+        f.write("Date,Description,Amount\n" + "".join(f"01/1{k}/2025,{d} ROW{k},{a}\n" for k, (d, a) in enumerate(stmt)))
+    with open(os.path.join(base, "config", "settings.yaml"), "w") as f:
+        f.write('year: 2025\nrule_mode: most_specific\ndata_sources:\n  - name: S\n    file: data/s.csv\n    format: "{date:%m/%d/%Y},{description},{amount}"\n')
+    with open(os.path.join(base, "config", "merchant_categories.csv"), "w") as f:
+        f.write(R.render_csv(rows))
+    viol = []
+    r = proc.run_cli(["up", "--migrate", "--format", "json", "-v"], cwd=base)
+    try:
+        j = json.loads(r["stdout"][r["stdout"].index("\n{"):])
+        got = {}
+        for m in j["merchants"]:
+            for raw in (m.get("raw_descriptions") or {}):
+                got[raw] = m["category"]
+    except Exception as e:  # noqa
+        shutil.rmtree(base, ignore_errors=True)
+        return {"evals": 1, "nontrivial": 0, "outcomes": ["cli-no-report"], "violations": [
+            {"kind": "migrating-run-produces-no-report", "detail": {"exit": r["exit"], "stderr_tail": r["stderr"][-300:], "exc": str(e)}}], "sample_repr": {"rows": rows}}
+    for k, (d, a) in enumerate(stmt):
+        t = {"description": f"{d} ROW{k}", "amount": a}
+        cands = []
+        for pos, i in enumerate(seq):
+            import re as _re
+            pat, mod = (CSV_FORM[i].split("[")[0], "[" in CSV_FORM[i])
+            if _re.search(pat, t["description"], _re.I) and (not mod or a > 0):
+                cands.append((pos, i))
+        want = RULES[max(cands, key=lambda pi: (KEYS[pi[1]], -pi[0]))[1]]["category"] if cands else "Unknown"
+        if got.get(t["description"]) != want:
+            viol.append({"kind": "wrong-category-winner", "detail": {"entry": "tally up --migrate (rule_mode: most_specific)", "txn": t, "expected_category": want,
+                                                                      "got": got.get(t["description"]), "csv_rows": [r_["pattern"] for r_ in rows]}})
+    shutil.rmtree(base, ignore_errors=True)
+    return {"evals": len(stmt), "nontrivial": 1, "outcomes": ["cli"], "violations": viol[:6], "sample_repr": {"rows": [r_["pattern"] for r_ in rows]}}
+
+
 def check_case(case):
+    if isinstance(case, dict) and "cli" in case:
+        return check_cli(case)
     if isinstance(case, dict):
         return check_csv(case)
     seq = tuple(case)
